@@ -24,38 +24,80 @@ Definition qualify (pkg p n : bytes) : bytes := (match p with [] => pkg | _ => p
 (* 2: field — [proto name; json name; type name; j5 kind; tenant; foreign package; foreign entity]
                [number; proto type; repeated; required; flatten; in oneof; primary; has tenant; filterable;
                 has foreign key; proto3 optional]
-   3: default filters of the field above (only when filterable) *)
-Definition field_lines (pkg : bytes) (in_oneof : bool) (i : N) (f : ofield) : list line :=
-  let '(pt, tn, kind) := match f_type f with
-    | TScalar pt k => (pt, [], k)
-    | TObject p n => (11, qualify pkg p n, bs "object")
-    | TOneof p n => (11, qualify pkg p n, bs "oneof")
-    | TEnum p n => (14, qualify pkg p n, bs "enum")
-    end in
-  (2, [to_snake (f_json f); f_json f; tn; (if f_repeated f then bs "array" else kind);
+   3: default filters of the field above (only when filterable)
+   [parent] is the full name of the containing message (a map field refers to its own entry) *)
+Definition type_cols (pkg parent : bytes) (f : ofield) (t : otype) : N * bytes * bytes :=
+  match t with
+  | TScalar pt k => (pt, [], k)
+  | TObject p n => (11, qualify pkg p n, bs "object")
+  | TOneof p n => (11, qualify pkg p n, bs "oneof")
+  | TEnum p n => (14, qualify pkg p n, bs "enum")
+  | TExt tn k => (11, tn, k)
+  | TMap _ => (11, parent ++ [46] ++ map_name (to_snake (f_json f)), [])
+  | TNested n k => (if k =? 2 then 14 else 11, parent ++ [46] ++ n,
+                    if k =? 0 then bs "object" else if k =? 1 then bs "oneof" else bs "enum")
+  end.
+
+Definition field_lines (pkg parent : bytes) (in_oneof : bool) (i : N) (f : ofield) : list line :=
+  let '(pt, tn, kind) := type_cols pkg parent f (f_type f) in
+  let is_map := match f_type f with TMap _ => true | _ => false end in
+  (2, [to_snake (f_json f); f_json f; tn; (if f_repeated f && negb is_map then bs "array" else kind);
        match f_tenant f with Some t => t | None => [] end;
        match f_foreign f with Some p => fst p | None => [] end;
        match f_foreign f with Some p => snd p | None => [] end],
-      [i; pt; b2n (f_repeated f); b2n (f_required f); b2n (f_flatten f); b2n in_oneof;
+      (* an optional array / map: the linked descriptor keeps the field in its (synthetic) oneof but
+         not the proto3_optional flag (label repeated) — what protodesc.NewFiles then rejects *)
+      [i; pt; b2n (f_repeated f); b2n (f_required f); b2n (f_flatten f);
+       b2n (in_oneof || (f_optional f && f_repeated f));
        b2n (f_primary f); b2n (match f_tenant f with Some _ => true | None => false end);
        b2n (match f_filter f with Some _ => true | None => false end);
-       b2n (match f_foreign f with Some _ => true | None => false end); b2n (f_optional f)])
+       b2n (match f_foreign f with Some _ => true | None => false end);
+       b2n (f_optional f && negb (f_repeated f))])
   :: match f_filter f with Some l => [(3, l, [])] | None => [] end.
 
-Fixpoint fields_lines (pkg : bytes) (in_oneof : bool) (i : N) (l : list ofield) : list line :=
+Fixpoint fields_lines (pkg parent : bytes) (in_oneof : bool) (i : N) (l : list ofield) : list line :=
   match l with
   | [] => []
-  | f :: r => field_lines pkg in_oneof i f ++ fields_lines pkg in_oneof (N.succ i) r
+  | f :: r => field_lines pkg parent in_oneof i f ++ fields_lines pkg parent in_oneof (N.succ i) r
   end.
+
+(* the messages nested in a message because of its fields, in field order: the entry message of a map
+   field (key = 1 string, value = 2) and the message of an inline object / oneof; then (a separate list
+   in the descriptor) the inline enums *)
+Definition entry_lines (pkg parent : bytes) (file : N) (fs : list ofield) : list line :=
+  flat_map (fun f =>
+    match f_type f, f_inline f with
+    | TMap v, _ =>
+        let '(pt, tn, kind) := type_cols pkg parent f v in
+        [ (1, [parent ++ [46] ++ map_name (to_snake (f_json f)); []], [file; 0; 0]);
+          (2, [bs "key"; []; []; []; []; []; []], [1; 9; 0; 0; 0; 0; 0; 0; 0; 0; 0]);
+          (2, [bs "value"; []; tn; kind; []; []; []], [2; pt; 0; 0; 0; 0; 0; 0; 0; 0; 0]) ]
+    | TNested n k, Some il =>
+        if k =? 2 then []
+        else (1, [parent ++ [46] ++ n; []], [file; 0; b2n (k =? 1)])
+             :: fields_lines pkg (parent ++ [46] ++ n) (k =? 1) 1 (map of_sfield (il_fields il))
+    | _, _ => []
+    end) fs
+  ++ flat_map (fun f =>
+    match f_type f, f_inline f with
+    | TNested n k, Some il =>
+        if k =? 2 then (4, [parent ++ [46] ++ n], [])
+                       :: map (fun v => (5, [fst v], [snd v])) (status_values (to_screaming_snake n ++ [95]) (il_options il))
+        else []
+    | _, _ => []
+    end) fs.
 
 (* 1: message — [full name; psm entity] [file; psm part; is oneof] *)
 Definition msg_lines (pkg : bytes) (file : N) (m : omsg) : list line :=
   let fp := file_pkg pkg file in
-  (1, [fp ++ [46] ++ m_name m; match m_psm m with Some (en, _) => en | None => [] end],
+  let full := fp ++ [46] ++ m_name m in
+  (1, [full; match m_psm m with Some (en, _) => en | None => [] end],
       [file; match m_psm m with Some (_, p) => p | None => 0 end; b2n (m_oneof m)])
-  :: fields_lines pkg (m_oneof m) 1 (m_fields m)
-  ++ flat_map (fun n => (1, [fp ++ [46] ++ m_name m ++ [46] ++ fst n; []], [file; 0; 0])
-                         :: fields_lines pkg false 1 (snd n)) (m_nested m).
+  :: fields_lines pkg full (m_oneof m) 1 (m_fields m)
+  ++ entry_lines pkg full file (m_fields m)
+  ++ flat_map (fun n => (1, [full ++ [46] ++ fst n; []], [file; 0; 0])
+                         :: fields_lines pkg (full ++ [46] ++ fst n) false 1 (snd n)
+                         ++ entry_lines pkg (full ++ [46] ++ fst n) file (snd n)) (m_nested m).
 
 (* 4: enum [full name] []; 5: value [name] [number] *)
 Definition enum_lines (pkg name : bytes) (vs : list (bytes * N)) : list line :=
@@ -116,17 +158,22 @@ Definition grouping_ok (es : list entity) (cs : list component) : bool :=
   | None => false
   end.
 
+(* errc: 0 when the real compiler accepted, else the class of its error (Entity.err_class) *)
 Inductive c17case :=
-| EC (es : list entity) (ok : bool) (lines : list line) (client_ok : bool) (clines : list line).
+| EC (es : list entity) (ok : bool) (errc : N) (lines : list line) (client_ok : bool) (clines : list line).
 
+(* the model accepts exactly when the real compiler does (both directions), with the same
+   descriptors and client view when it does and the same error class when it does not *)
 Definition c17_check (c : c17case) : bool :=
   match c with
-  | EC es ok lines cok clines =>
-      match compile_all es with
+  | EC es ok errc lines cok clines =>
+      match compile_file es with
       | Ok cs => ok && list_eqb line_eqb (flatten (file_pkg_of es) cs) lines
-                 && cok && list_eqb line_eqb (flat_map (fun e => client_lines (client_view e)) es) clines
-                 && grouping_ok es cs
-      | Err _ => negb ok
+                 && Bool.eqb cok (client_accepts cs)
+                 && (negb cok || (list_eqb line_eqb (flat_map (fun e => client_lines (client_view e)) es) clines
+                                  && grouping_ok es cs))
+      | Err s => negb ok && (err_class s =? errc)
+      | Panic _ => negb ok && (errc =? 100)      (* the real compiler panicked *)
       | _ => false
       end
   end.
@@ -141,8 +188,8 @@ Fixpoint first_diff (i : N) (a b : list line) : option (N * option line * option
   end.
 Definition c17_diff (c : c17case) :=
   match c with
-  | EC es ok lines cok clines =>
-      match compile_all es with
+  | EC es ok _ lines cok clines =>
+      match compile_file es with
       | Ok cs => match first_diff 0 (flatten (file_pkg_of es) cs) lines with
                  | Some d => Some d
                  | None => first_diff 1000 (flat_map (fun e => client_lines (client_view e)) es) clines
